@@ -38,23 +38,22 @@ func (f *bepFam) conn() *sim.Conn {
 func (f *bepFam) exec(c M) M {
 	var r M
 	var body func()
+	var compute func() M // Secure, Verify: the pure call, so that it can also be made from several goroutines at once
 	switch op := str(c["e"]); op {
 	case "Secure":
 		r = args(c, "id", "ip")
 		id, ip := krpc.ID(id20(c["id"])), ipOf(c["ip"])
-		body = func() {
+		compute = func() M {
 			a := id
 			dht.SecureNodeId(&a, append(net.IP{}, ip...))
-			r["res"] = sim.IDBytes(a)
 			b := a
 			dht.SecureNodeId(&b, append(net.IP{}, ip...))
-			r["res2"] = sim.IDBytes(b)
-			r["ver"] = dht.NodeIdSecure(a, append(net.IP{}, ip...))
+			return M{"res": sim.IDBytes(a), "res2": sim.IDBytes(b), "ver": dht.NodeIdSecure(a, append(net.IP{}, ip...))}
 		}
 	case "Verify":
 		r = args(c, "id", "ip")
 		id, ip := id20(c["id"]), ipOf(c["ip"])
-		body = func() { r["res"] = dht.NodeIdSecure(id, ip) }
+		compute = func() M { return M{"res": dht.NodeIdSecure(id, ip)} }
 	case "DetId":
 		r = args(c, "ip", "port")
 		ip, port := ipOf(c["ip"]), integer(c["port"])
@@ -95,12 +94,23 @@ func (f *bepFam) exec(c M) M {
 	default:
 		panic("unknown bep42 op " + op)
 	}
-	if par, ok := c["par"]; ok && integer(par) > 0 {
-		// the same call while other goroutines verify other IDs: the functions are used from lookups, the table
-		// and the API at once, and their result may not depend on that
-		r["par"] = par
-		inner := body
-		body = func() { withNoise(integer(par), inner) }
+	if compute != nil {
+		body = func() {
+			for k, v := range compute() {
+				r[k] = v
+			}
+		}
+		if par, ok := c["par"]; ok && integer(par) > 0 {
+			// the same call from several goroutines at once, many times: these functions are used from lookups, the
+			// table and the API concurrently. They are functions of their arguments, so every result must be the same;
+			// if one is not, that one is recorded (and judged by the reference like any other)
+			r["par"] = par
+			body = func() {
+				for k, v := range concurrently(integer(par), 300, compute) {
+					r[k] = v
+				}
+			}
+		}
 	}
 	if p, msg := guard(body); p {
 		r["panic"] = true
@@ -109,39 +119,50 @@ func (f *bepFam) exec(c M) M {
 	return r
 }
 
-func withNoise(k int, f func()) {
-	stop := make(chan struct{})
+func concurrently(g, iters int, compute func() M) M {
+	type tally struct {
+		m M
+		n int
+	}
+	var mu sync.Mutex
+	seen := map[string]*tally{}
+	start := make(chan struct{})
 	var wg sync.WaitGroup
-	var started sync.WaitGroup
-	for i := 0; i < k; i++ {
+	for i := 0; i < g; i++ {
 		wg.Add(1)
-		started.Add(1)
-		go func(i int) {
+		go func() {
 			defer wg.Done()
-			var id krpc.ID
-			ip := net.IP{byte(11 + i), 2, 3, 4}
-			first := true
-			for {
-				select {
-				case <-stop:
-					return
-				default:
-				}
-				id[0]++
-				id[19] = byte(i)
-				dht.NodeIdSecure(id, ip)
-				a := id
-				dht.SecureNodeId(&a, ip)
-				if first {
-					first = false
-					started.Done()
+			local := map[string]*tally{}
+			<-start
+			for j := 0; j < iters; j++ {
+				m := compute()
+				k := fmt.Sprint(m)
+				if t := local[k]; t != nil {
+					t.n++
+				} else {
+					local[k] = &tally{m, 1}
 				}
 			}
-		}(i)
+			mu.Lock()
+			for k, t := range local {
+				if s := seen[k]; s != nil {
+					s.n += t.n
+				} else {
+					seen[k] = t
+				}
+			}
+			mu.Unlock()
+		}()
 	}
-	started.Wait()
-	defer func() { close(stop); wg.Wait() }()
-	f()
+	close(start)
+	wg.Wait()
+	var pick *tally
+	for _, t := range seen { // the rarest outcome
+		if pick == nil || t.n < pick.n {
+			pick = t
+		}
+	}
+	return pick.m
 }
 
 // ---------------------------------------------------------------------------------- generation
@@ -328,8 +349,14 @@ func (f *bepFam) generate(rng *rand.Rand, n int, out *emitter) {
 			out.call(M{"e": "InitId", "conn": rng.Intn(2) == 0, "nosec": rng.Intn(2) == 0, "preset": true, "pid": idj(randID(rng)), "ip": ints(ip)})
 		}
 		if i%8 == 0 {
-			out.call(M{"e": "Verify", "id": idj(randID(rng)), "ip": ints(ip), "par": 4})
-			out.call(M{"e": "Secure", "id": idj(randID(rng)), "ip": ints(ip), "par": 4})
+			pip := ip
+			if i%16 == 0 {
+				pip = bepVectors[(i/16)%len(bepVectors)].ip[:] // certainly not an exempt address
+			}
+			for j := 0; j < 24; j++ {
+				out.call(M{"e": "Secure", "id": idj(randID(rng)), "ip": ints(pip), "par": 8})
+			}
+			out.call(M{"e": "Verify", "id": idj(randID(rng)), "ip": ints(pip), "par": 8})
 		}
 		if i%2 == 0 || i < len(pool) {
 			out.call(M{"e": "ServerId", "ip": ints(ip), "nosec": i%4 < 2, "conn": i%3 != 0})
